@@ -100,12 +100,19 @@ Definition mem (t : nat) (l : list nat) : bool := existsb (Nat.eqb t) l.
 (* ground truth: the token's signer is among the keys of a served body *)
 Definition signer_in (ks : list jwk) (tok : token) : bool :=
   existsb (fun k => Nat.eqb (k_mat k) (t_signer tok)) ks.
-(* ground truth: the body publishes exactly one key under the token's (non-empty)
-   kid, usable for signatures with the token's algorithm, and it is the signer *)
+(* ground truth for "signed by a key the endpoint serves at that time" => must verify:
+   among the published keys that can verify this token at all - usable for signatures, of
+   the key type of the token's algorithm, published under the token's kid (under any kid
+   when the token has none) - there is exactly one, and it is the signer.  Keys of another
+   key type or use under the same kid (RFC 7517 4.5: equivalent alternatives, e.g. an
+   RSA->EC migration) and kid-less neighbours do not make the served signer ambiguous;
+   two usable keys of the right type under the token's kid (or for a kid-less token) do. *)
+Definition candidate (tok : token) (k : jwk) : bool :=
+  use_ok k && alg_fits (k_kty k) (t_alg tok)
+  && (String.eqb (t_kid tok) "" || String.eqb (k_kid k) (t_kid tok)).
 Definition unique_match (ks : list jwk) (tok : token) : bool :=
-  negb (String.eqb (t_kid tok) "") &&
-  match filter (fun k => String.eqb (k_kid k) (t_kid tok)) ks with
-  | [k] => use_ok k && alg_fits (k_kty k) (t_alg tok) && Nat.eqb (k_mat k) (t_signer tok)
+  match filter (candidate tok) ks with
+  | [k] => Nat.eqb (k_mat k) (t_signer tok)
   | _ => false
   end.
 
